@@ -59,7 +59,15 @@ type scte35 struct {
 
 	// because there is no support for descriptors other than segmentation descriptors,
 	// the bytes need to be stored so information is not lost.
-	otherDescriptorBytes []byte
+	otherDescriptors []otherDescriptor
+}
+
+// otherDescriptor is a descriptor that is not a segmentation descriptor. Its
+// bytes are kept together with its position among the segmentation
+// descriptors, so that it is written back where it was found.
+type otherDescriptor struct {
+	before int    // number of segmentation descriptors found before it
+	data   []byte // tag, length and body
 }
 
 // NewSCTE35 creates a new SCTE35 signal from the provided byte slice. The byte slice is parsed and relevant info is made available fir the SCTE35 interface. If the message cannot me parsed, an error is returned.
@@ -159,8 +167,8 @@ func (s *scte35) parseTable(data []byte) error {
 				// Not interested in descriptors that are not
 				// SegmentationDescriptors
 				// Store their bytes anyways so the data is not lost.
-				s.otherDescriptorBytes = append(s.otherDescriptorBytes, descTag, descLen)
-				s.otherDescriptorBytes = append(s.otherDescriptorBytes, buf.Next(int(descLen))...)
+				data := append([]byte{descTag, descLen}, buf.Next(int(descLen))...)
+				s.otherDescriptors = append(s.otherDescriptors, otherDescriptor{before: len(s.descriptors), data: data})
 			} else {
 				d := &segmentationDescriptor{spliceInfo: s}
 				err := d.parseDescriptor(buf.Next(int(descLen)))
